@@ -1243,7 +1243,6 @@ func reachesReturn(v ssa.Value, depth int) bool {
 	return false
 }
 
-
 // onlyFeedsMessages: the built string ends up only in log events or error
 // texts (it is a message, not a rebuilt line).
 func onlyFeedsMessages(v ssa.Value, depth int) bool {
